@@ -47,9 +47,17 @@ ValKnown(e) ==
     /\ \A n \in DOMAIN e.src.val :
           [e.src.val[n] EXCEPT !.output = "", !.delegators = <<>>] = [e.dst.val[n] EXCEPT !.output = "", !.delegators = <<>>]
 
+\* the exported document itself lists exactly the pending claims of the exported state (judged even when
+\* the import does not go through)
+SeqSet(q) == {q[i] : i \in DOMAIN q}
+DocumentOK(e) == "expClaims" \in DOMAIN e /\ "claims" \in DOMAIN e.src =>
+                    /\ SeqSet(e.expClaims) = SeqSet(e.src.claims)
+                    /\ Len(e.expClaims) = Len(e.src.claims)
+
 \* class of an export event: "" = reproduced; an open known-finding id; or "C43" (unlisted violation)
 ExportClass(e) ==
-    IF ~e.ok
+    IF ~DocumentOK(e) THEN "C43"
+    ELSE IF ~e.ok
       THEN IF e.reason = "pool-mismatch" /\ e.unstaking /\ "F-C43-a" \in Known THEN "F-C43-a"
            ELSE IF e.reason = "acl-unknown-param" /\ ~e.noParamFeatures /\ "F-C43-b" \in Known THEN "F-C43-b"
            ELSE "C43"
